@@ -284,6 +284,48 @@ func runtimeCell(cause, load string) cellResult {
 }
 
 // signalBeforeWriters: SIGTERM/SIGINT while both ingesters still wait for a writer to open their pipe.
+// signalInheritedIgnored: the daemon was started with the signal's disposition set to "ignore"; the signal must
+// end it all the same.
+func signalInheritedIgnored(sig syscall.Signal, name, trap string) cellResult {
+	res := cellResult{Cell: name + "/started-with-the-signal-ignored"}
+	d := &daemon{dir: newDir(), ignoreSig: trap}
+	defer os.RemoveAll(d.dir)
+	d.sshdPath = filepath.Join(d.dir, "sshd-pipe")
+	d.auditPath = filepath.Join(d.dir, "audit-pipe")
+	d.outPath = filepath.Join(d.dir, "events.log")
+	mkfifo(d.sshdPath)
+	mkfifo(d.auditPath)
+	_ = os.WriteFile(d.outPath, nil, 0o644)
+	if err := d.start(false); err != nil {
+		res.Verdict, res.Detail = "inconclusive", err.Error()
+		return res
+	}
+	defer d.kill()
+	sw, err := d.openWriter(d.sshdPath, 10*time.Second)
+	if err != nil {
+		res.Verdict, res.Detail = "inconclusive", err.Error()
+		return res
+	}
+	defer sw.Close()
+	aw, err := d.openWriter(d.auditPath, 10*time.Second)
+	if err != nil {
+		res.Verdict, res.Detail = "inconclusive", err.Error()
+		return res
+	}
+	defer aw.Close()
+	time.Sleep(100 * time.Millisecond)
+	t0 := time.Now()
+	_ = d.cmd.Process.Signal(sig)
+	exited, code := d.waitExit(exitBound)
+	res.LatencyS, res.ExitCode = time.Since(t0).Seconds(), code
+	if !exited {
+		res.Verdict, res.Detail = "violation", fmt.Sprintf("the daemon is still running %v after %s; it had been started with that signal ignored (inherited disposition)", exitBound, name)
+	} else {
+		res.Verdict, res.Detail = "ok", tail(d.stderr.String(), 1)
+	}
+	return res
+}
+
 func signalBeforeWriters(sig syscall.Signal, name string) cellResult {
 	res := cellResult{Cell: name + "/no-writer-has-opened-the-pipes"}
 	d := &daemon{dir: newDir()}
@@ -525,6 +567,8 @@ func runC08(run *mc.Run) int {
 		}
 		judge(runtimeCell(c, "stalled-output"))
 	}
+	judge(signalInheritedIgnored(syscall.SIGINT, "sigint", "INT"))
+	judge(signalInheritedIgnored(syscall.SIGTERM, "sigterm", "TERM"))
 	judge(signalBeforeWriters(syscall.SIGTERM, "sigterm"))
 	if run.Thorough() {
 		judge(signalBeforeWriters(syscall.SIGINT, "sigint"))
@@ -550,7 +594,7 @@ func runC08(run *mc.Run) int {
 		}
 	}
 	cov := mc.Coverage{Level: "fault_enumeration", Evaluations: len(results), Distinct: len(results) - inconclusive, Exhaustive: inconclusive == 0, Samples: samples,
-		Rule:  "fault enumeration on the built binary over real FIFOs: 10 run-time causes (sshd pipe EOF, sshd writer dying mid-line with a replacement writer connecting 300 ms later (idle and stalled-output only), audit pipe EOF, unparsable audit line, a LOGIN record whose pid is not a number, a login the correlator rejects while the next login is already buffered, output /dev/full, output FIFO whose reader left, SIGTERM, SIGINT) x load {idle, stalled-output: the events FIFO is never drained so the line buffer and the audit pipe stay full (write end accepts no byte for >=300 ms), saturated: a writer keeps the audit FIFO full - single-record events written at full speed, >=8 MB written and the pipe found full >=50 times - flow equilibrium with the 10000-slot line buffer full}, 2 cells with -metrics -healthz -log-level debug and an HTTP client stalled mid-response (pipelined /metrics requests, never read) x {audit pipe EOF, SIGTERM}, 6 start-up causes (sshd/audit path is a regular file, a directory, missing); oracle: the process exits within 10 s of the cause, non-zero for failures. A cell whose set-up could not be reached is inconclusive (exit 0, exhaustive=false). distinct_nontrivial = conclusive cells",
+		Rule:  "fault enumeration on the built binary over real FIFOs: 10 run-time causes (sshd pipe EOF, sshd writer dying mid-line with a replacement writer connecting 300 ms later (idle and stalled-output only), audit pipe EOF, unparsable audit line, a LOGIN record whose pid is not a number, a login the correlator rejects while the next login is already buffered, output /dev/full, output FIFO whose reader left, SIGTERM, SIGINT) x load {idle, stalled-output: the events FIFO is never drained so the line buffer and the audit pipe stay full (write end accepts no byte for >=300 ms), saturated: a writer keeps the audit FIFO full - single-record events written at full speed, >=8 MB written and the pipe found full >=50 times - flow equilibrium with the 10000-slot line buffer full}, 2 cells with -metrics -healthz -log-level debug and an HTTP client stalled mid-response (pipelined /metrics requests, never read) x {audit pipe EOF, SIGTERM}, SIGINT / SIGTERM to a daemon that was started with that signal ignored (inherited disposition), 6 start-up causes (sshd/audit path is a regular file, a directory, missing); oracle: the process exits within 10 s of the cause, non-zero for failures. A cell whose set-up could not be reached is inconclusive (exit 0, exhaustive=false). distinct_nontrivial = conclusive cells",
 		Extra: map[string]any{"cells": results, "saturated_cells_reached": sat, "inconclusive": inconclusive, "bound_s": exitBound.Seconds()}}
 	cov.Assumptions = []string{"the OS scheduler is not controlled; 10 s is the property's bounded time against observed millisecond latencies",
 		"the decisive blocking state (line buffer full, consumer gone) is also decided deterministically by C13's bubble cells"}
